@@ -121,6 +121,7 @@ def load_units():
             v.setdefault("loops", None)
             v.setdefault("no_default_flags", False)
             v.setdefault("solver", None)
+            v.setdefault("entry", None)
             if v["name"] in units:
                 raise Tooling("duplicate unit " + v["name"])
             units[v["name"]] = v
@@ -492,8 +493,52 @@ def nd_script(trace):
     return vals
 
 
+def verify_unit_native(unit):
+    """A lemma decided by exhaustive native enumeration on the compiled repo code (labelled as
+    such, never counted as a CBMC proof). The program prints `LEMMA cases=N failures=M`."""
+    t0 = time.time()
+    res = {"unit": unit["name"], "status": "tooling", "obligations": [], "reason": "", "cached": False, "solver_s": 0.0}
+    wd = tempfile.mkdtemp(prefix="vn_", dir=os.environ.get("VERIF_SCRATCH", "/var/tmp"))
+    try:
+        src = os.path.join(CONTRACTS, unit["component"], unit["native"])
+        exe = os.path.join(wd, "lemma")
+        cmd = ["gcc", "-O2", "-w", "-DNO_UNIT_TESTS"] + inc_flags() + [src, "-o", exe, "-lm", "-lpthread"]
+        r = run(cmd, 300, mem_gb=32)
+        res["pipeline"] = [" ".join(cmd), exe]
+        if r["rc"] != 0:
+            raise Tooling("native lemma does not compile: " + r["err"][-2000:])
+        r = run([exe], unit["timeout"], mem_gb=32)
+        res["solver_s"] = round(r["wall"], 2)
+        if r["timeout"]:
+            raise Tooling("native lemma timed out")
+        m = re.search(r"LEMMA cases=(\d+) failures=(\d+)", r["out"])
+        if not m:
+            raise Tooling("native lemma printed no verdict: " + (r["out"] + r["err"])[-500:])
+        cases, fails = int(m.group(1)), int(m.group(2))
+        if cases == 0:
+            raise Tooling("native lemma enumerated nothing")
+        desc = unit["lemma"] + " (exhaustive native enumeration of %d cases)" % cases
+        fail_lines = [l for l in r["out"].split("\n") if l.startswith("LEMMA-FAILS")]
+        res["obligations"] = [
+            {"id": unit["name"] + ".lemma", "status": "SUCCESS" if fails == 0 else "FAILURE", "desc": desc,
+             "tags": tags_of(unit["lemma"]), "kind": "tagged", "line": None, "file": src, "function": "main",
+             "nd_script": None, "trace_tail": [{"lemma_failures": fail_lines[:5]}]},
+            {"id": unit["name"] + ".enumerated", "status": "FAILURE", "desc": "[COVER] the domain is not empty",
+             "tags": ["COVER"], "kind": "cover", "line": None, "file": src, "function": "main"}]
+        res["cases"] = cases
+        res["status"] = "ok" if fails == 0 else "failed"
+    except Tooling as e:
+        res["reason"] = str(e)
+    finally:
+        shutil.rmtree(wd, ignore_errors=True)
+    res["wall"] = round(time.time() - t0, 2)
+    return res
+
+
 def verify_unit(unit, use_cache=True):
     """Returns dict(status, obligations, wall, ...). status in ok|failed|tooling."""
+    if unit.get("native"):
+        return verify_unit_native(unit)
     t0 = time.time()
     workdir = tempfile.mkdtemp(prefix="vu_", dir=os.environ.get("VERIF_SCRATCH", "/var/tmp"))
     res = {"unit": unit["name"], "status": "tooling", "obligations": [], "reason": "",
